@@ -95,6 +95,9 @@ impl Game {
         for character in pieces.chars() {
             match character {
                 '/' => {
+                    if col != 8 {
+                        bail!("Too few columns");
+                    }
                     if row == 0 {
                         bail!("Too many rows");
                     }
@@ -102,17 +105,16 @@ impl Game {
                     row -= 1;
                 }
                 piece if piece.is_ascii_alphabetic() => {
-                    if col == 8 {
+                    let Some(position) = Position::new(row, col) else {
                         bail!("Too many columns");
-                    }
+                    };
                     let piece = Piece::from_char_ascii(piece).with_context(|| "Invalid piece")?;
                     if piece.piece_type == PieceType::King {
                         match piece.owner {
-                            Player::White => white_king_pos = Some(Position::new_assert(row, col)),
-                            Player::Black => black_king_pos = Some(Position::new_assert(row, col)),
+                            Player::White => white_king_pos = Some(position),
+                            Player::Black => black_king_pos = Some(position),
                         }
                     }
-                    let position = Position::new_assert(row, col);
                     board[position.as_usize()] = Some(piece);
                     past_scores[position.as_usize()] = piece.score(position, &piece_scores);
                     score += past_scores[position.as_usize()];
@@ -121,15 +123,17 @@ impl Game {
 
                     col += 1;
                 }
-                empty_count if character.is_ascii_digit() => {
+                empty_count @ '1'..='8' => {
                     let count = (empty_count as u8 - b'0') as i8;
-                    for i in 0..count {
-                        let position = Position::new_assert(row, col + i);
+                    for _ in 0..count {
+                        let Some(position) = Position::new(row, col) else {
+                            bail!("Too many columns");
+                        };
                         past_hashes[position.as_usize()] = zobrist::EMPTY_PLACE;
                         hash ^= past_hashes[position.as_usize()];
-                    }
 
-                    col += count;
+                        col += 1;
+                    }
                 }
                 _ => bail!("Unknown character met"),
             }
@@ -143,9 +147,9 @@ impl Game {
             bail!("Missing player");
         };
 
-        let current_player = match next_player.chars().next().unwrap() {
-            'w' => Player::White,
-            'b' => Player::Black,
+        let current_player = match next_player {
+            "w" => Player::White,
+            "b" => Player::Black,
             _ => bail!("Invalid player"),
         };
 
@@ -175,11 +179,16 @@ impl Game {
         };
 
         if en_passant != "-" {
-            let col = en_passant.chars().nth(0).unwrap();
-            state.set_en_passant(((col as u8) - b'a') as i8);
-            if !(0..8).contains(&state.en_passant()) {
-                bail!("Invalid en passant square");
-            }
+            // The square behind the pawn that just moved: rank 6 if White is to move, else rank 3
+            let expected_rank = match current_player {
+                Player::White => b'6',
+                Player::Black => b'3',
+            };
+            let col = match en_passant.as_bytes() {
+                [file @ b'a'..=b'h', rank] if *rank == expected_rank => (*file - b'a') as i8,
+                _ => bail!("Invalid en passant square"),
+            };
+            state.set_en_passant(col);
         }
 
         let Some(white_king_pos) = white_king_pos else {
